@@ -739,3 +739,13 @@ func (f Fact) withHolds(want bool) Fact {
 	}
 	return f
 }
+
+// factEdgesImplied: factEdges, with every fact that the branch fact implies (conjuncts of `a && b` on its true edge,
+// negated disjuncts of `a || b` on its false edge) reported on the same edge.
+func factEdgesImplied(fn *ssa.Function, f func(e Edge, fact Fact)) {
+	factEdges(fn, func(e Edge, f0 Fact) {
+		for _, ft := range impliedFacts(f0, 0) {
+			f(e, ft)
+		}
+	})
+}
